@@ -223,7 +223,12 @@ impl Universe {
         let mut out = Vec::new();
         for host in &child.ns {
             let in_bailiwick = under(host, &child.apex);
-            let parent_holds = self.zone_owning(host) == parent_z;
+            // the parent's own data, or a host beneath one of its delegations that
+            // serves one of its delegations (registries keep glue for such hosts)
+            let kids = self.children(parent_z);
+            let parent_holds = self.zone_owning(host) == parent_z
+                || (kids.iter().any(|&s| under(host, &self.zones[s].apex))
+                    && kids.iter().any(|&s| self.zones[s].ns.iter().any(|h| names_equal(h, host))));
             if in_bailiwick || (sibling_glue && parent_holds) {
                 for a in self.host_addresses(host) {
                     out.push(a.to_rr());
@@ -409,6 +414,13 @@ pub struct GenOpts {
     pub wildcards: bool,
     pub out_of_zone_ns: bool,
     pub ttl_choices: Vec<u32>,
+    /// Two sibling zones served only by each other's in-zone name server: the
+    /// cycle is broken by the glue their common parent sends (needs the
+    /// servers' `sibling_glue`).
+    pub mutual_sibling_ns: bool,
+    /// Per cent of the address records of out-of-zone name-server hosts that
+    /// carry TTL 0 (good for the transaction in progress, never cached).
+    pub zero_ttl_outside_ns_addresses: u8,
 }
 
 impl Default for GenOpts {
@@ -422,6 +434,8 @@ impl Default for GenOpts {
             wildcards: true,
             out_of_zone_ns: true,
             ttl_choices: vec![300],
+            mutual_sibling_ns: false,
+            zero_ttl_outside_ns_addresses: 0,
         }
     }
 }
@@ -583,6 +597,60 @@ pub fn generate(r: &mut Rng, opts: &GenOpts) -> Universe {
             zone.ns.push(host);
         }
         u.zones.push(zone);
+    }
+
+    // two siblings that serve each other
+    if opts.mutual_sibling_ns {
+        let mut pairs: Vec<(usize, usize)> = Vec::new();
+        for a in 1..u.zones.len() {
+            for b in (a + 1)..u.zones.len() {
+                let siblings = (0..u.zones.len()).any(|p| {
+                    let kids = u.children(p);
+                    kids.contains(&a) && kids.contains(&b)
+                });
+                // neither may be needed by anybody else's delegation
+                let used_elsewhere = |z: usize| {
+                    u.zones.iter().enumerate().any(|(i, o)| i != z && o.ns.iter().any(|h| under(h, &u.zones[z].apex)))
+                };
+                if siblings && !used_elsewhere(a) && !used_elsewhere(b) {
+                    pairs.push((a, b));
+                }
+            }
+        }
+        if !pairs.is_empty() {
+            let (a, b) = *r.pick(&pairs);
+            for (z, other) in [(a, b), (b, a)] {
+                let host = child_name("ns1", &u.zones[other].apex);
+                if u.host_addresses(&host).is_empty() {
+                    let t = ttl_of(r);
+                    let recs = host_records(r, &mut alloc, &host, opts, t);
+                    u.zones[other].records.extend(recs);
+                }
+                u.zones[z].ns = vec![host];
+            }
+        }
+    }
+    // addresses that are never cached
+    if opts.zero_ttl_outside_ns_addresses > 0 {
+        let outside: Vec<String> = u
+            .zones
+            .iter()
+            .flat_map(|z| z.ns.iter().filter(|h| !under(h, &z.apex)).cloned().collect::<Vec<_>>())
+            .collect();
+        for z in &mut u.zones {
+            let in_zone_ns: Vec<String> = z.ns.iter().filter(|h| under(h, &z.apex)).cloned().collect();
+            for rec in &mut z.records {
+                let is_addr = matches!(rec.rtype(), "A" | "AAAA");
+                // (a host that is also somebody's glued, in-zone server keeps its TTL)
+                if is_addr
+                    && outside.iter().any(|h| names_equal(h, &rec.owner))
+                    && !in_zone_ns.iter().any(|h| names_equal(h, &rec.owner))
+                    && r.below(100) < u64::from(opts.zero_ttl_outside_ns_addresses)
+                {
+                    rec.ttl = 0;
+                }
+            }
+        }
     }
 
     // ordinary data
